@@ -18,6 +18,16 @@ the inputs (TARGETS); a variable may not change type where control flow merges.
     tuple[T1,..]   -> T1 × ..   fixed-length tuples and keyword-only dataclass constructor calls (fields in
                              the order of the class definition, fields fed by an `opaque` parameter dropped)
     T | None       -> Option T  only as the result of a function whose end can be reached without `return`
+    real           -> R         OPAQUE scalar (Python float / jnp scalar).  A function with a `real` in its signature gets
+                             `{R : Type} (ops : Py.RealOps R)`; the only operations are the uninterpreted fields of `ops`:
+                             `a + b`, `a * b`, `a / b` -> ops.add/mul/div (an int operand, an int literal or a literal like
+                             `0.0` is converted by ops.ofInt first, as Python converts it), `int(x // 1)` -> ops.floor x,
+                             truthiness -> ops.truthy x, the `<` of `sorted` -> ops.lt.  No other use (`-`, comparisons,
+                             printing) is translated.  An int variable that a loop turns into a real (`remaining = 0;
+                             remaining = remaining + score`) is converted by ops.ofInt before the loop.
+    dict[K,V]      -> List (K × V)  keys distinct, in insertion order: `{}`, `d[k]` -> Py.dictGet, `d[k] = v` and
+                             `d.update({k: v})` -> Py.dictSet (replace in place or append), `for k in d`, `d.keys()`,
+                             `d.values()`
 Expressions (all pure, single evaluation):
     int literals, True/False, names, `+ - *` on ints, unary `-`      -> the same on Int
     `a // b`, `a % b`                    -> Int.fdiv a b, Int.fmod a b   (floor semantics = Python for all signs;
@@ -32,6 +42,9 @@ Expressions (all pure, single evaluation):
     `l[i]` -> Py.get l i (negative i from the end);  `l[:i]`, `l[i:]`, `l[a:b]` -> Py.sliceTo / sliceFrom / slice
     `None` -> none (element of a list[option[T]]);  `any(l)`, `all(l)` for a sequence of bools -> List.any/all l id
     `itertools.product(*ls)` -> Py.product ls (list of lists, first factor slowest)
+    `reversed(l)` -> List.reverse l;  `zip(a, b)` -> List.zip a b
+    `sorted(l, key=lambda x: e, reverse=True)` -> Py.sortedDesc lt (fun x => e) l   (stable insertion sort, equal keys keep
+      their order — CPython's result whenever `<` is a strict weak order on the keys; int or real keys)
     `map(f, l)` for a translated function or method f -> List.map (fun v => f .. v) l
     `t[k]` for a fixed-length tuple and literal k -> projection
     `[e for x in it if c]` and the generator expression `(e for x in it if c)` (one generator;
@@ -47,6 +60,7 @@ Expressions (all pure, single evaluation):
       `self._partitioner.split_sizes()`) -> the corresponding parameter of the generated definition
 Statements:
     `x = e`, `x op= e` (op in + - * // %), `self.a = e` (a local named self_a), `l[i] = e` -> `let` (shadowing)
+    `a, b, _ = e` for a fixed-length tuple e -> projections;  `l.reverse()` -> let l := List.reverse l
     `l.append(e)` -> let l := l ++ [e];   `l.extend(e)` -> let l := l ++ e
     `if / elif / else` without `return` inside -> `let (vars) := if c then .. else ..` over the variables
       assigned in a branch that are live afterwards (defined before, or assigned on both branches);
@@ -54,22 +68,26 @@ Statements:
     `for x in it:` -> a top-level definition `<f>_loop<k> (free variables) (state) (x)` = the loop body as a
       state transformer over the tuple of variables it assigns (that exist before the loop), and
       `List.foldl (<f>_loop<k> ..) state it`; variables first assigned inside the body are body-local.
-      A `return` inside the body adds an `Option` component to the state (the early result): once it is
-      `some _` the remaining iterations are the identity, and the result is returned after the fold.
+      A `return` or `assert` inside the body adds an `Option` component to the state (the finished function
+      result): once it is `some _` the remaining iterations are the identity, and it is returned after the fold.
+      A `break` adds a Bool component: once it is true the remaining iterations are the identity.
     `return e`; `pass`; docstrings.  Reaching the end of the function returns `none` (see T | None).
     `assert c` -> if c then <rest> else none;  `x = f(..)` with a translated f that may return None ->
       match f .. with | none => none | some x => <rest>  (Python would raise on the first use of None; exceptions
       are not modelled, so in a function with an assert or such a call the result `none` means "no value": end
-      reached, assert failed, or None used).  Both only outside loops.
-  Not translated (Untranslatable): while, break/continue, for-else, try/with/raise/del, lambdas, nested
+      reached, assert failed, or None used).
+  Not translated (Untranslatable): while, continue, for-else, try/with/raise/del, lambdas (except a sort key), nested
   defs, comprehensions with several generators, starred/keyword arguments (except dataclass constructors,
   `dtype=`, `default=`), strings, floats, division `/`, `**`, `in`, `is`, any unknown call or attribute.
 Extraction rules for functions that are not pure as a whole are explicit in TARGETS: `inputs` (source
 expression -> parameter or expression over the parameters, e.g. `x.ndim` -> `len(x_shape)`; closure variables of a
 nested function are simply declared as parameters), `opaque` (parameters that may only flow into a dropped
 constructor field), `result` (expression returned after the last statement, e.g. the attributes `__init__` has
-set) and `returns` (what each returned expression stands for, e.g. `_GraftMask()` -> True, `x` -> False for the
-predicate of `_mask_skipped`).  An expression
+set), `returns` (what each returned expression stands for, e.g. `_GraftMask()` -> True, `x` -> False for the
+predicate of `_mask_skipped`), `closure` (parameters of a nested function that are variables of the enclosing one: a
+translated caller passes its own variable of that name) and `body_of` (translate the body of one `for` loop of a
+function, from its first statement up to a named statement, as a function of the loop variable — the per-dimension
+allocation of `create_redist_dict`).  An expression
 repeated inline (`to_pad = -n % d`) is extracted by the `assign-pattern` rule (class ExprTarget).
 Emitted text depends only on the AST of the target functions (no line numbers, comments or hashes), so a
 change that the text does not show is a change the translator does not see.
@@ -92,7 +110,7 @@ class Untranslatable(Exception):
 
 # ------------------------------------------------------------------------------------------ targets
 class Target:
-    def __init__(self, rel, qual, lean, params, ret, inputs=None, opaque=(), result=None, returns=None):
+    def __init__(self, rel, qual, lean, params, ret, inputs=None, opaque=(), result=None, returns=None, body_of=None, closure=()):
         self.rel, self.qual, self.lean = rel, qual, lean
         self.params = params            # [(lean parameter name, type string)] in the order of the Lean definition
         self.ret = ret                  # type string of the result
@@ -100,6 +118,8 @@ class Target:
         self.opaque = tuple(opaque)     # python parameters that are not translated
         self.result = result            # python expression returned at the end (for __init__)
         self.returns = returns or {}    # ast.unparse(returned expression) -> python expression it stands for
+        self.body_of = body_of          # (loop header, prefix of the first statement NOT taken): translate that loop's body
+        self.closure = tuple(closure)   # parameters that are variables of the enclosing function: a caller passes its own
 
 
 class ExprTarget:
@@ -146,6 +166,7 @@ class ExprTarget:
 
 
 DS = "distributed_shampoo.py"
+RE = os.path.join("tearfree", "reallocation.py")
 TARGETS = [
     Target(DS, "merge_small_dims", "mergeSmallDims", [("shape_to_merge", "list[int]"), ("max_dim", "int")], "list[int]"),
     Target(DS, "_precond_dim", "precondDim", [("compression_rank", "int"), ("dim", "int")], "int"),
@@ -189,6 +210,17 @@ TARGETS = [
                    "options.skip_preconditioning_any_dim_gt": "skip_preconditioning_any_dim_gt", "x.shape": "x_shape", "x.ndim": "len(x_shape)"},
            returns={"_GraftMask()": "True", "x": "False"}),
     Target("sm3.py", "sm3._get_expanded_shape", "sm3ExpandedShape", [("shape", "list[int]"), ("i", "int")], "list[int]"),
+    # tearfree/reallocation.py::create_redist_dict: the per-dimension allocation.  Scores are opaque scalars (`real`), keys
+    # are stood for by ints; the group arrives as the list [(key, score_dict[key]) for key in group] in group order.
+    Target(RE, "create_redist_dict.rd", "reallocRd", [("x", "real")], "int"),
+    Target(RE, "create_redist_dict.grp_info", "reallocGrpInfo", [("sketchy_rank", "int"), ("group_scores", "list[tuple[int,real]]")],
+           "tuple[list[int],int,int]", inputs={"group_dict[dim]": "[p[0] for p in group_scores]"}, opaque=("dim",),
+           closure=("sketchy_rank", "group_scores")),
+    Target(RE, "create_redist_dict.is_outlier", "reallocIsOutlier",
+           [("score", "real"), ("total_score", "real"), ("total_resource", "int"), ("dim", "int")], "bool"),
+    Target(RE, "create_redist_dict", "redistGroup", [("dim", "int"), ("sketchy_rank", "int"), ("group_scores", "list[tuple[int,real]]")],
+           "dict[int,int]", body_of=("for dim in group_dict", "redist_dict = alloc_fn("), result="realloc",
+           inputs={"[(key, score_dict[key]) for key in group]": "group_scores"}),
 ]
 
 LEAN_KEYWORDS = {
@@ -240,8 +272,10 @@ def parse_type(s):
                 assert s[pos[0]] == "]", s
                 pos[0] += 1
                 break
-        if head in ("int", "bool", "arr", "opaque") and not args:
+        if head in ("int", "bool", "arr", "opaque", "real") and not args:
             return head
+        if head == "dict" and len(args) == 2:
+            return ("dict", tuple(args))
         if head == "list" and len(args) == 1:
             return ("list", args[0])
         if head == "option" and len(args) == 1:
@@ -260,6 +294,8 @@ def lean_ty(t, top=True):
         return "Int"
     if t == "bool":
         return "Bool"
+    if t == "real":
+        return "R"
     if t == "arr":
         return "List Int" if top else "(List Int)"
     if isinstance(t, TVar):
@@ -268,6 +304,8 @@ def lean_ty(t, top=True):
         r = "List " + lean_ty(t[1], False)
     elif t[0] == "option":
         r = "Option " + lean_ty(t[1], False)
+    elif t[0] == "dict":
+        r = "List (" + " × ".join(lean_ty(x, False) for x in t[1]) + ")"
     elif t[0] == "tuple":
         r = " × ".join(lean_ty(x, False) for x in t[1])
     else:
@@ -365,10 +403,24 @@ def contains(stmts, kinds):
     return False
 
 
+class Handlers:
+    def __init__(self, ret, raw, brk):
+        self.ret, self.raw, self.brk = ret, raw, brk
+
+
+def is_dict(t):
+    t = res(t)
+    return isinstance(t, tuple) and t[0] == "dict"
+
+
 class FnTranslator:
     def __init__(self, mod, target, known):
         self.mod, self.t, self.known = mod, target, known     # known: python function name -> (lean name, param types, ret type)
         self.fn = mod.find(target.qual)
+        self.src_node = self.fn
+        if getattr(target, "body_of", None):
+            self.fn = self.loop_body_fn(self.fn, *target.body_of)
+        self.real = any("real" in ty for _, ty in target.params) or "real" in target.ret
         self.defs = []          # loop definitions (text), in order of completion
         self.nloop = 0
         self.nst = 0
@@ -378,6 +430,26 @@ class FnTranslator:
         self.option = False     # result is Option (end reachable without return / assert / None-able callee)
         self.in_loop = False
         self.pynames = {n.id for n in ast.walk(self.fn) if isinstance(n, ast.Name)} | {a.arg for a in self.fn.args.args}
+
+    def loop_body_fn(self, fn, header, stop):
+        """Extraction rule `body_of`: the statements of the loop `header` of the function, up to (not including)
+        the first one whose text starts with `stop`, as a function of the loop variables."""
+        loops = [n for n in fn.body if isinstance(n, ast.For) and f"for {ast.unparse(n.target)} in {ast.unparse(n.iter)}" == header]
+        if len(loops) != 1:
+            raise Untranslatable(self.t.qual, fn.lineno, f"{len(loops)} loops `{header}` in the function body")
+        loop, body = loops[0], []
+        for st in loop.body:
+            if ast.unparse(st).startswith(stop):
+                break
+            body.append(st)
+        else:
+            raise Untranslatable(self.t.qual, loop.lineno, f"no statement starting with `{stop}` in the loop")
+        self.src_node = loop
+        args = [ast.arg(arg=x.id) for x in ast.walk(loop.target) if isinstance(x, ast.Name)]
+        f = ast.FunctionDef(name="loop_body", args=ast.arguments(posonlyargs=[], args=args, kwonlyargs=[], kw_defaults=[], defaults=[]),
+                            body=body, decorator_list=[])
+        f.lineno = loop.lineno
+        return f
 
     def bad(self, node, what):
         raise Untranslatable(self.t.qual, getattr(node, "lineno", self.fn.lineno), what)
@@ -414,6 +486,8 @@ class FnTranslator:
                 return ("true" if e.value else "false"), "bool"
             if type(e.value) is int:
                 return f"({e.value} : Int)", "int"
+            if type(e.value) is float and e.value == int(e.value) and abs(e.value) < 2 ** 53 and self.real:
+                return f"(ops.ofInt ({int(e.value)} : Int))", "real"    # 0.0, 1.0, ..: the int converted
             self.bad(e, f"constant {e.value!r}")
         v = self.var_of(e)
         if v is not None and v in env:
@@ -460,6 +534,11 @@ class FnTranslator:
             return f"(if {c} then {a} else {b})", ta
         if isinstance(e, (ast.List, ast.Tuple)):
             return self.seq_literal(e, env)
+        if isinstance(e, ast.Dict) and not e.keys:
+            kv, vv = TVar(), TVar()
+            hk, hv = f"⟦hole{len(self.holes)}⟧", f"⟦hole{len(self.holes) + 1}⟧"
+            self.holes[hk], self.holes[hv] = kv, vv
+            return f"([] : List ({hk} × {hv}))", ("dict", (kv, vv))
         if isinstance(e, ast.Subscript):
             return self.subscript(e, env)
         if isinstance(e, (ast.ListComp, ast.GeneratorExp)):
@@ -487,6 +566,8 @@ class FnTranslator:
             return a
         if ta == "int":
             return f"(decide ({a} ≠ 0))"
+        if ta == "real":
+            return f"(ops.truthy {a})"
         if is_seq(ta):
             return f"(!(List.isEmpty {a}))"
         self.bad(e, "truthiness of this type")
@@ -496,6 +577,12 @@ class FnTranslator:
         b, tb = self.expr(r, env)
         ta, tb = res(ta), res(tb)
         sym = {ast.Add: "+", ast.Sub: "-", ast.Mult: "*"}.get(type(op))
+        rop = {ast.Add: "add", ast.Mult: "mul", ast.Div: "div"}.get(type(op))
+        if rop and self.real and {ta, tb} <= {"int", "real"} and (ta == "real" or tb == "real" or rop == "div"):
+            # opaque scalars: the operation is a parameter; an int operand is converted first (as Python does)
+            a2 = a if ta == "real" else f"(ops.ofInt {a})"
+            b2 = b if tb == "real" else f"(ops.ofInt {b})"
+            return f"(ops.{rop} {a2} {b2})", "real"
         if ta == "int" and tb == "int":
             if sym:
                 return f"({a} {sym} {b})", "int"
@@ -577,6 +664,11 @@ class FnTranslator:
             self.bad(e, "index of a fixed-length tuple must be a literal in range")
         if is_seq(ta):
             return f"(Py.get {a} {self.int_expr(e.slice, env, 'index')})", elem_ty(ta)
+        if is_dict(ta):
+            kx, tk = self.expr(e.slice, env)
+            if not unify(ta[1][0], tk, True):
+                self.bad(e, "dict key of a different type")
+            return f"(Py.dictGet {a} {kx})", ta[1][1]
         self.bad(e, "subscript of " + str(ta))
 
     def bind_target(self, tgt, ety, arg):
@@ -604,6 +696,8 @@ class FnTranslator:
                     self.bad(e, "enumerate of a non-sequence")
                 return f"(Py.enumerate {a})", ("tuple", ("int", elem_ty(ta)))
         a, ta = self.expr(e, env)
+        if is_dict(ta):
+            return f"(Py.dictKeys {a})", res(ta)[1][0]
         if not is_seq(ta):
             self.bad(e, "iteration over a non-sequence")
         return a, elem_ty(ta)
@@ -619,21 +713,22 @@ class FnTranslator:
     def apply_known(self, node, base, entry, arg_texts, env):
         """Text and type of a call of a translated function: positional arguments fill the non-self parameters in
         order; parameters the callee reads from `self.<..>` are taken from the same source expression here."""
-        ln, plist, rty = entry
-        parts, i = [], 0
+        ln, plist, rty, real, npy = entry
+        if real and not self.real:
+            self.bad(node, f"call of {base}, which works on opaque scalars, from a function that has none")
+        if len(arg_texts) != npy:
+            self.bad(node, f"call of {base} with {len(arg_texts)} arguments")
+        parts = ["ops"] if real else []
         for kind, pty, src in plist:
             if kind == "self":
                 a, ta = self.expr(ast.parse(src, mode="eval").body, env)
+            elif kind == "closure":
+                a, ta = self.expr(ast.Name(id=src, ctx=ast.Load()), env)
             else:
-                if i >= len(arg_texts):
-                    self.bad(node, f"call of {base} with too few arguments")
-                a, ta = arg_texts[i]
-                i += 1
+                a, ta = arg_texts[src]
             if not unify(ta, pty, False):
                 self.bad(node, f"argument of {base} has type {res(ta)}, expected {res(pty)}")
             parts.append(a)
-        if i != len(arg_texts):
-            self.bad(node, f"call of {base} with {len(arg_texts)} arguments")
         return f"({ln} {' '.join(parts)})", rty
 
     def listcomp(self, e, env):
@@ -718,6 +813,44 @@ class FnTranslator:
             return f"(Py.range {self.int_expr(e.args[0], env, 'arange bound')})", "arr"
         if f in ("np.ones", "np.zeros") and nargs == 1 and set(kw) <= {"dtype"}:
             return f"(Py.full {self.int_expr(e.args[0], env, 'array length')} ({1 if f == 'np.ones' else 0} : Int))", "arr"
+        if f == "int" and nargs == 1 and not kw and isinstance(e.args[0], ast.BinOp) and isinstance(e.args[0].op, ast.FloorDiv) \
+                and isinstance(e.args[0].right, ast.Constant) and e.args[0].right.value == 1 and type(e.args[0].right.value) is int:
+            a, ta = self.expr(e.args[0].left, env)
+            if res(ta) == "real":
+                return f"(ops.floor {a})", "int"
+            if res(ta) == "int":
+                return a, "int"
+            self.bad(e, "int(x // 1) of this type")
+        if f == "reversed" and nargs == 1 and not kw:
+            a, ta = arg(0)
+            if not is_seq(ta) or res(ta) == "arr":
+                self.bad(e, "reversed of a non-list")
+            return f"(List.reverse {a})", ta
+        if f == "zip" and nargs == 2 and not kw:
+            (a, ta), (b, tb) = arg(0), arg(1)
+            if not (is_seq(ta) and is_seq(tb)):
+                self.bad(e, "zip of non-sequences")
+            return f"(List.zip {a} {b})", ("list", ("tuple", (elem_ty(ta), elem_ty(tb))))
+        if f == "sorted" and nargs == 1 and set(kw) == {"key", "reverse"} and isinstance(kw["reverse"], ast.Constant) \
+                and kw["reverse"].value is True and isinstance(kw["key"], ast.Lambda) and len(kw["key"].args.args) == 1 \
+                and not kw["key"].args.defaults:
+            a, ta = arg(0)
+            if not is_seq(ta) or res(ta) == "arr":
+                self.bad(e, "sorted of a non-list")
+            x = kw["key"].args.args[0].arg
+            env2 = dict(env)
+            env2[x] = elem_ty(ta)
+            kx, tk = self.expr(kw["key"].body, env2)
+            lt = {"real": "ops.lt", "int": "(fun py_a py_b => decide (py_a < py_b))"}.get(res(tk))
+            if lt is None:
+                self.bad(e, "sort key of this type")
+            return f"(Py.sortedDesc {lt} (fun ({lname(x)} : {lean_ty(elem_ty(ta))}) => {kx}) {a})", ta
+        if isinstance(e.func, ast.Attribute) and e.func.attr in ("values", "keys") and nargs == 0 and not kw:
+            n = self.dict_place(e.func.value, env)
+            if n is not None:
+                self.used.add(n)
+                kt, vt = res(env[n])[1]
+                return (f"(Py.dictValues {lname(n)})", ("list", vt)) if e.func.attr == "values" else (f"(Py.dictKeys {lname(n)})", ("list", kt))
         if f in ("any", "all") and nargs == 1 and not kw:
             a, ta = arg(0)
             if not (is_seq(ta) and res(elem_ty(ta)) == "bool"):
@@ -736,7 +869,7 @@ class FnTranslator:
             a, ta = arg(1)
             if not is_seq(ta):
                 self.bad(e, "map over a non-sequence")
-            body, rty = self.apply_known(e, base, entry, [("py_m", elem_ty(ta))], env)
+            body, rty = self.apply_known(e, base, entry, [("py_m", elem_ty(ta))], env)     # f takes one argument
             return f"(List.map (fun (py_m : {lean_ty(elem_ty(ta))}) => {body}) {a})", ("list", rty)
         # another translated function (bare name, module.name or self.name)
         base, entry = self.callee(e.func)
@@ -767,16 +900,16 @@ class FnTranslator:
                 t = s.targets[0]
                 if isinstance(t, ast.Subscript):
                     t = t.value
-                n = self.var_of(t)
-                if n:
-                    add(n)
-                    defined.add(n)
+                for n in ([x.id for x in t.elts if isinstance(x, ast.Name) and x.id != "_"] if isinstance(t, ast.Tuple) else [self.var_of(t)]):
+                    if n:
+                        add(n)
+                        defined.add(n)
             elif isinstance(s, ast.AugAssign):
                 n = self.var_of(s.target)
                 if n:
                     add(n)
             elif isinstance(s, ast.Expr) and isinstance(s.value, ast.Call) and isinstance(s.value.func, ast.Attribute) \
-                    and s.value.func.attr in ("append", "extend"):
+                    and s.value.func.attr in ("append", "extend", "update", "reverse"):
                 n = self.var_of(s.value.func.value)
                 if n:
                     add(n)
@@ -797,9 +930,10 @@ class FnTranslator:
         out = []
         for s in stmts:
             if isinstance(s, ast.Assign) and len(s.targets) == 1:
-                n = self.var_of(s.targets[0])
-                if n and n not in out:
-                    out.append(n)
+                t = s.targets[0]
+                for n in ([x.id for x in t.elts if isinstance(x, ast.Name) and x.id != "_"] if isinstance(t, ast.Tuple) else [self.var_of(t)]):
+                    if n and n not in out:
+                        out.append(n)
             elif isinstance(s, ast.If):
                 b = self.surely(s.orelse)
                 out += [n for n in self.surely(s.body) if n in b and n not in out]
@@ -820,18 +954,33 @@ class FnTranslator:
             return entry is not None and isinstance(res(entry[2]), tuple) and res(entry[2])[0] == "option"
         return False
 
-    def has_exit(self, stmts):
-        """The block can leave the function (or produce `none`) in the middle: return, assert, bind of a None-able call."""
-        return any(isinstance(n, (ast.Return, ast.Assert)) or self.opt_call(n) for st in stmts for n in ast.walk(st))
+    def has_exit(self, stmts, brk=True):
+        """The block can stop in the middle: return, assert, bind of a None-able call (at any depth), or a `break`
+        of the loop the block belongs to."""
+        for st in stmts:
+            if isinstance(st, (ast.Return, ast.Assert)) or self.opt_call(st) or (brk and isinstance(st, ast.Break)):
+                return True
+            if isinstance(st, ast.If) and self.has_exit(st.body + st.orelse, brk):
+                return True
+            if isinstance(st, ast.For) and self.has_exit(st.body, False):
+                return True
+        return False
 
-    def block(self, stmts, env, k, ret):
-        """Lines of the Lean term for `stmts` followed by the continuation k(env); ret(text, type, node) renders a return."""
+    def dict_place(self, node, env):
+        n = self.var_of(node)
+        if n is not None and n in env and is_dict(env[n]):
+            return n
+        return None
+
+    def block(self, stmts, env, k, h):
+        """Lines of the Lean term for `stmts` followed by the continuation k(env).  h: how to leave —
+        h.ret(text, type, node) a `return`, h.raw(text) a finished function result, h.brk() a `break`."""
         if not stmts:
             return k(env)
         s, rest = stmts[0], stmts[1:]
 
         def cont(env2):
-            return self.block(rest, env2, k, ret)
+            return self.block(rest, env2, k, h)
 
         if isinstance(s, ast.Pass) or (isinstance(s, ast.Expr) and isinstance(s.value, ast.Constant) and isinstance(s.value.value, str)):
             return cont(env)
@@ -845,13 +994,25 @@ class FnTranslator:
                     self.bad(s, f"return of `{key}`, which the target's `returns` rule does not name")
                 val = ast.parse(self.t.returns[key], mode="eval").body
             a, ta = self.expr(val, env)
-            return ret(a, ta, s)
+            return h.ret(a, ta, s)
+        if isinstance(s, ast.Break):
+            if h.brk is None:
+                self.bad(s, "break outside a loop")
+            return h.brk()
         if isinstance(s, ast.Assign):
             if len(s.targets) != 1:
                 self.bad(s, "chained assignment")
             t = s.targets[0]
             if isinstance(t, ast.Subscript):
                 n = self.var_of(t.value)
+                if n is not None and n in env and is_dict(env[n]) and not isinstance(t.slice, ast.Slice):
+                    kt, vt = res(env[n])[1]
+                    kx, tk = self.expr(t.slice, env)
+                    v, tv = self.expr(s.value, env)
+                    if not (unify(kt, tk, True) and unify(vt, tv, True)):
+                        self.bad(s, "dict entry of a different type")
+                    self.used.add(n)
+                    return [f"let {lname(n)} := Py.dictSet {lname(n)} {kx} {v}"] + cont(env)
                 if n is None or n not in env or not is_seq(env[n]) or isinstance(t.slice, ast.Slice):
                     self.bad(s, "assignment to this subscript")
                 v, tv = self.expr(s.value, env)
@@ -859,6 +1020,19 @@ class FnTranslator:
                     self.bad(s, "element assignment of a different type")
                 self.used.add(n)
                 return [f"let {lname(n)} := Py.setAt {lname(n)} {self.int_expr(t.slice, env, 'index')} {v}"] + cont(env)
+            if isinstance(t, ast.Tuple) and all(isinstance(x, ast.Name) for x in t.elts) and not self.opt_call(s):
+                v, tv = self.expr(s.value, env)
+                tv = res(tv)
+                if not (isinstance(tv, tuple) and tv[0] == "tuple" and len(tv[1]) == len(t.elts)):
+                    self.bad(s, "tuple assignment from something that is not a tuple of that length")
+                var = self.fresh("t")
+                env2 = dict(env)
+                lines = [f"let {var} := {v}"]
+                for i, x in enumerate(t.elts):
+                    if x.id != "_":
+                        env2[x.id] = tv[1][i]
+                        lines.append(f"let {lname(x.id)} := {proj(var, i, len(t.elts))}")
+                return lines + cont(env2)
             n = self.var_of(t)
             if n is None:
                 self.bad(s, "assignment target " + ast.unparse(t))
@@ -867,10 +1041,11 @@ class FnTranslator:
                 self.bad(s, "assignment of an untranslated value")
             env2 = dict(env)
             if self.opt_call(s):
-                if not self.option or self.in_loop:
-                    self.bad(s, "use of a possibly-None result inside a loop")
+                if not self.option:
+                    self.bad(s, "use of a possibly-None result")
                 env2[n] = res(tv)[1]
-                return [f"match {v} with", "| none => none", f"| some {lname(n)} =>"] + ["  " + x for x in cont(env2)]
+                return [f"match {v} with", "| none =>"] + ["  " + x for x in h.raw("none")] + [f"| some {lname(n)} =>"] \
+                    + ["  " + x for x in cont(env2)]
             env2[n] = tv
             return [f"let {lname(n)} := {v}"] + cont(env2)
         if isinstance(s, ast.AugAssign):
@@ -883,36 +1058,48 @@ class FnTranslator:
             return [f"let {lname(n)} := {v}"] + cont(env2)
         if isinstance(s, ast.Expr):
             c = s.value
-            if isinstance(c, ast.Call) and isinstance(c.func, ast.Attribute) and c.func.attr in ("append", "extend") \
-                    and len(c.args) == 1 and not c.keywords:
-                n = self.var_of(c.func.value)
-                if n is None or n not in env or res(env[n]) == "arr" or not is_seq(env[n]):
-                    self.bad(s, "append/extend on something that is not a local list")
-                v, tv = self.expr(c.args[0], env)
-                self.used.add(n)
-                if c.func.attr == "append":
-                    if not unify(elem_ty(env[n]), tv, True):
-                        self.bad(s, f"append of {res(tv)} to {res(env[n])}")
-                    return [f"let {lname(n)} := {lname(n)} ++ [{v}]"] + cont(env)
-                if not (is_seq(tv) and unify(elem_ty(env[n]), elem_ty(tv), True)):
-                    self.bad(s, "extend with a different element type")
-                return [f"let {lname(n)} := {lname(n)} ++ {v}"] + cont(env)
+            if isinstance(c, ast.Call) and isinstance(c.func, ast.Attribute) and not c.keywords:
+                n, attr = self.var_of(c.func.value), c.func.attr
+                if attr == "update" and n is not None and n in env and is_dict(env[n]) and len(c.args) == 1 \
+                        and isinstance(c.args[0], ast.Dict) and len(c.args[0].keys) == 1 and c.args[0].keys[0] is not None:
+                    kt, vt = res(env[n])[1]
+                    kx, tk = self.expr(c.args[0].keys[0], env)
+                    v, tv = self.expr(c.args[0].values[0], env)
+                    if not (unify(kt, tk, True) and unify(vt, tv, True)):
+                        self.bad(s, "dict entry of a different type")
+                    self.used.add(n)
+                    return [f"let {lname(n)} := Py.dictSet {lname(n)} {kx} {v}"] + cont(env)
+                if attr == "reverse" and not c.args and n is not None and n in env and is_seq(env[n]) and res(env[n]) != "arr":
+                    self.used.add(n)
+                    return [f"let {lname(n)} := List.reverse {lname(n)}"] + cont(env)
+                if attr in ("append", "extend") and len(c.args) == 1:
+                    if n is None or n not in env or res(env[n]) == "arr" or not is_seq(env[n]):
+                        self.bad(s, "append/extend on something that is not a local list")
+                    v, tv = self.expr(c.args[0], env)
+                    self.used.add(n)
+                    if attr == "append":
+                        if not unify(elem_ty(env[n]), tv, True):
+                            self.bad(s, f"append of {res(tv)} to {res(env[n])}")
+                        return [f"let {lname(n)} := {lname(n)} ++ [{v}]"] + cont(env)
+                    if not (is_seq(tv) and unify(elem_ty(env[n]), elem_ty(tv), True)):
+                        self.bad(s, "extend with a different element type")
+                    return [f"let {lname(n)} := {lname(n)} ++ {v}"] + cont(env)
             self.bad(s, "expression statement " + ast.unparse(c)[:40])
         if isinstance(s, ast.Assert):
-            if not self.option or self.in_loop:
-                self.bad(s, "assert inside a loop")
-            return [f"if {self.truth(s.test, env)} then"] + ["  " + x for x in cont(env)] + ["else", "  none"]
+            if not self.option:
+                self.bad(s, "assert in a function whose result is not optional")
+            return [f"if {self.truth(s.test, env)} then"] + ["  " + x for x in cont(env)] + ["else"] + ["  " + x for x in h.raw("none")]
         if isinstance(s, ast.If):
-            return self.if_stmt(s, env, cont, ret)
+            return self.if_stmt(s, env, cont, h)
         if isinstance(s, ast.For):
-            return self.for_stmt(s, env, cont, ret)
+            return self.for_stmt(s, env, cont, h)
         self.bad(s, type(s).__name__)
 
-    def if_stmt(self, s, env, cont, ret):
+    def if_stmt(self, s, env, cont, h):
         c = self.truth(s.test, env)
         if self.has_exit(s.body + s.orelse):
-            a = self.block(s.body, env, cont, ret)
-            b = self.block(s.orelse, env, cont, ret)
+            a = self.block(s.body, env, cont, h)
+            b = self.block(s.orelse, env, cont, h)
             return [f"if {c} then"] + ["  " + x for x in a] + ["else"] + ["  " + x for x in b]
         both = set(self.surely(s.body)) & set(self.surely(s.orelse))
         live = [n for n in self.assigned(s.body, env) + self.assigned(s.orelse, env) if n in env or n in both]
@@ -924,8 +1111,8 @@ class FnTranslator:
         def k(env2):
             ends.append(env2)
             return [self.tuple_text(live)]
-        a = self.block(s.body, env, k, ret)
-        b = self.block(s.orelse, env, k, ret)
+        a = self.block(s.body, env, k, h)
+        b = self.block(s.orelse, env, k, h)
         env3 = dict(env)
         for n in live:
             if not unify(ends[0][n], ends[1][n], True):
@@ -935,81 +1122,113 @@ class FnTranslator:
         return ([f"let {var} :=", f"  if {c} then"] + ["    " + x for x in a] + ["  else"] + ["    " + x for x in b]
                 + self.unpack(live, var) + cont(env3))
 
-    def for_stmt(self, s, env, cont, ret):
+    def for_stmt(self, s, env, cont, h, promoted=()):
         if s.orelse:
             self.bad(s, "for-else")
-        if contains(s.body, (ast.Break, ast.Continue)):
-            self.bad(s, "break/continue")
+        if contains(s.body, ast.Continue):
+            self.bad(s, "continue")
+        snap = (self.nloop, self.nst, len(self.defs), dict(self.holes), set(self.used))
+        pre_lines = []
+        if promoted:
+            env = dict(env)
+            for n in promoted:      # an int variable that the loop turns into an opaque scalar: convert it first
+                env[n] = "real"
+                pre_lines.append(f"let {lname(n)} := (ops.ofInt {lname(n)})")
         self.nloop += 1
         name = f"{self.t.lean}_loop{self.nloop}"
         it, ety = self.iterable(s.iter, env)
-        binds = self.bind_target(s.target, ety, "py_x")
+        binds = [b for b in self.bind_target(s.target, ety, "py_x")]
         lv = [n for n, _, _ in binds]
         env_b = dict(env)
         for n, t, _ in binds:
-            env_b[n] = t
+            if n != "_":
+                env_b[n] = t
         state = [n for n in self.assigned(s.body, env_b) if n in env and n not in lv]
-        early = contains(s.body, ast.Return)
+        early = self.has_exit(s.body, False)
+        brk = any(isinstance(n, ast.Break) for n in self.own_level(s.body))
         outer_used, self.used = self.used, set()
-        outer_loop, self.in_loop = self.in_loop, True
         ends = []
+        wrap = (lambda a: f"some {a}") if self.option else (lambda a: a)
 
-        def st_tuple(first, names):
-            parts = ([first] if first is not None else []) + [lname(n) for n in names]
+        def st_tuple(e, b):
+            parts = ([e] if early else []) + ([b] if brk else []) + [lname(n) for n in state]
             return parts[0] if len(parts) == 1 else "(" + ", ".join(parts) + ")"
 
         def k(env2):
             ends.append(env2)
-            return [st_tuple("none" if early else None, state)]
+            return [st_tuple("none", "false")]
 
         def ret_b(a, ta, node):
             if not unify(ta, self.ret_ty, False):
                 self.bad(node, f"return of {res(ta)}, declared {self.t.ret}")
-            return [st_tuple(f"some {a}", state)]
-        body = self.block(s.body, env_b, k, ret_b)
-        self.in_loop = outer_loop
+            return [st_tuple(f"(some ({wrap(a)}))", "false")]
+        hb = Handlers(ret_b, lambda text: [st_tuple(f"(some {text})", "false")], (lambda: [st_tuple("none", "true")]) if brk else None)
+        body = self.block(s.body, env_b, k, hb)
         if not state and not early:
             self.bad(s, "loop without effect")
+        need = []
         for e2 in ends:
             for n in state:
                 if not unify(env[n], e2[n], True):
-                    self.bad(s, f"'{n}' changes type inside the loop")
+                    if res(env[n]) == "int" and res(e2[n]) == "real" and n not in promoted:
+                        need.append(n)
+                    else:
+                        self.bad(s, f"'{n}' changes type inside the loop")
+        if need:
+            self.nloop, self.nst = snap[0], snap[1]
+            del self.defs[snap[2]:]
+            self.holes, self.used = snap[3], snap[4]
+            return self.for_stmt(s, env, cont, h, tuple(promoted) + tuple(dict.fromkeys(need)))
         free = [n for n in env if n in self.used and n not in state and n not in lv and env[n] != "opaque"]
         self.used = outer_used | set(free) | set(state)
-        ncomp = len(state) + (1 if early else 0)
-        off = 1 if early else 0
+        ncomp = len(state) + (1 if early else 0) + (1 if brk else 0)
+        off = (1 if early else 0) + (1 if brk else 0)
+        resty = lean_ty(("option", self.ret_ty) if self.option else self.ret_ty, False)
 
         def finish_def():
-            sty = " × ".join(([f"Option {lean_ty(self.ret_ty, False)}"] if early else []) + [lean_ty(env[n], False) for n in state])
-            head = (f"def {name}" + "".join(f" ({lname(n)} : {lean_ty(env[n])})" for n in free)
+            sty = " × ".join(([f"Option {resty}"] if early else []) + (["Bool"] if brk else []) + [lean_ty(env[n], False) for n in state])
+            head = (f"def {name}" + self.real_sig() + "".join(f" ({lname(n)} : {lean_ty(env[n])})" for n in free)
                     + f" (py_st : {sty}) (py_x : {lean_ty(ety)}) : {sty} :=")
             pre = [f"let {lname(n)} := {proj('py_st', i + off, ncomp)}" for i, n in enumerate(state)]
-            pre += [f"let {lname(n)} := {tx}" for n, _, tx in binds]
+            pre += [f"let {lname(n)} := {tx}" for n, _, tx in binds if n != "_"]
+            lines = pre + body
+            if brk:
+                lines = [f"if {proj('py_st', 1 if early else 0, ncomp)} then", "  py_st", "else"] + ["  " + x for x in lines]
             if early:
-                lines = [f"match {proj('py_st', 0, ncomp)} with", "| some _ => py_st", "| none =>"] + ["  " + x for x in pre + body]
-            else:
-                lines = pre + body
+                lines = [f"match {proj('py_st', 0, ncomp)} with", "| some _ => py_st", "| none =>"] + ["  " + x for x in lines]
             return "\n".join([head] + ["  " + x for x in lines])
         self.defs.append(finish_def)        # rendered at the end, when `[]` element types are known
         var = self.fresh("st")
-        if len(state) == 1 and not early:
+        if ncomp == 1 and not early and not brk:
             var = lname(state[0])
-        call = f"List.foldl ({name}" + "".join(" " + lname(n) for n in free) + f") {st_tuple('none' if early else None, state)} {it}"
-        out = [f"let {var} := {call}"]
+        call = (f"List.foldl ({name}" + (" ops" if self.real else "") + "".join(" " + lname(n) for n in free)
+                + f") {st_tuple('none', 'false')} {it}")
+        out = pre_lines + [f"let {var} := {call}"]
+        env_after = dict(env)
+        after = [f"let {lname(n)} := {proj(var, i + off, ncomp)}" for i, n in enumerate(state) if lname(n) != var] + cont(env_after)
         if early:
             r = self.fresh("r")
-            after = [f"let {lname(n)} := {proj(var, i + 1, ncomp)}" for i, n in enumerate(state)] + cont(env)
-            return out + [f"match {proj(var, 0, ncomp)} with", f"| some {r} =>"] + ["  " + x for x in ret(r, self.ret_ty, s)] \
+            return out + [f"match {proj(var, 0, ncomp)} with", f"| some {r} =>"] + ["  " + x for x in h.raw(r)] \
                 + ["| none =>"] + ["  " + x for x in after]
-        return out + self.unpack(state, var) + cont(env)
+        return out + after
+
+    def own_level(self, stmts):
+        """Statements of a loop body that belong to this loop (not to a nested loop)."""
+        for st in stmts:
+            yield st
+            if isinstance(st, ast.If):
+                yield from self.own_level(st.body + st.orelse)
+
+    def real_sig(self):
+        return " {R : Type} (ops : Py.RealOps R)" if self.real else ""
 
     # ---------------------------------------------------------------- whole function
     def translate(self):
         fn, t = self.fn, self.t
         if fn.args.vararg or fn.args.kwarg or fn.args.kwonlyargs or fn.args.posonlyargs:
             self.bad(fn, "*args / **kwargs / keyword-only / positional-only parameters")
-        if contains(fn.body, (ast.FunctionDef, ast.Lambda, ast.While, ast.Try, ast.With, ast.Yield, ast.Global, ast.Nonlocal)):
-            self.bad(fn, "nested def / lambda / while / try / with / yield / global")
+        if contains(fn.body, (ast.FunctionDef, ast.While, ast.Try, ast.With, ast.Yield, ast.Global, ast.Nonlocal)):
+            self.bad(fn, "nested def / while / try / with / yield / global")
         env = {}
         declared = dict(t.params)
         for n, ty in t.params:
@@ -1035,9 +1254,9 @@ class FnTranslator:
 
         def k(env2):
             return ["none"]
-        lines = self.block(body, env, k, ret)
+        lines = self.block(body, env, k, Handlers(ret, lambda text: [text], None))
         rty = lean_ty(self.ret_ty, False) if option else lean_ty(self.ret_ty)
-        head = (f"def {t.lean}" + "".join(f" ({lname(n)} : {lean_ty(env[n])})" for n, _ in t.params)
+        head = (f"def {t.lean}" + self.real_sig() + "".join(f" ({lname(n)} : {lean_ty(env[n])})" for n, _ in t.params)
                 + f" : {'Option ' if option else ''}{rty} :=")
         text = "\n\n".join([d() for d in self.defs] + ["\n".join([head] + ["  " + x for x in lines])])
         for h, v in self.holes.items():
@@ -1083,14 +1302,25 @@ def generate(src_dir=None, targets=None):
                 t = ft
             else:
                 tr = FnTranslator(mod, t, known)
-                seg = ast.get_source_segment(mod.src, tr.fn) or ""
-                rec["lines"] = [tr.fn.lineno, tr.fn.end_lineno]
+                seg = ast.get_source_segment(mod.src, tr.src_node) or ""
+                rec["lines"] = [tr.src_node.lineno, tr.src_node.end_lineno]
             rec["source_sha256"] = hashlib.sha256(seg.encode()).hexdigest()
             text, option = tr.translate()
             rec["option"] = option
             rty = ("option", tr.ret_ty) if option else tr.ret_ty
             selfsrc = {v: k for k, v in getattr(t, "inputs", {}).items() if k.startswith("self.")}
-            known[t.qual.split(".")[-1]] = (t.lean, [("self" if n in selfsrc else "arg", parse_type(p), selfsrc.get(n)) for n, p in t.params], rty)
+            pyargs = [a.arg for a in tr.fn.args.args if a.arg != "self"]
+            plist, seq = [], [i for i, a in enumerate(pyargs) if a not in dict(t.params)]
+            for n, p in t.params:
+                if n in selfsrc:
+                    plist.append(("self", parse_type(p), selfsrc[n]))
+                elif n in getattr(t, "closure", ()):
+                    plist.append(("closure", parse_type(p), n))
+                elif n in pyargs:
+                    plist.append(("arg", parse_type(p), pyargs.index(n)))
+                else:       # named differently from the Python argument: the next unnamed position
+                    plist.append(("arg", parse_type(p), seq.pop(0) if seq else len(pyargs)))
+            known[t.qual.split(".")[-1]] = (t.lean, plist, rty, tr.real, len(pyargs))
             chunks.append(f"/-- `{rec['function'].replace(os.sep, '/')}` -/\n" + text)
         except Untranslatable as e:
             rec["error"] = {"function": e.function, "lineno": e.lineno, "construct": e.construct}
